@@ -63,7 +63,7 @@ def run(ck):
             fv = np.zeros(d, dtype=np.float32); fv[1 + (i // 9) % (d - 1)] = 1.0      # a coordinate with ~33 distinct values
             kwm['fixed_vector'] = torch.tensor(fv)
         y = xr.make_y(task, X, rng)
-        Xv = xr.make_X('random', max(nv, 0), d, rng) + 100.0 * (nv == 0)
+        Xv = xr.make_X('distinct_grid' if tied else 'random', max(nv, 0), d, rng) + 100.0 * (nv == 0)   # grid: validation rows tie with thresholds
         yv = xr.make_y(task, Xv, rng) if nv > 0 else y[:0]
         if nv == 0:
             Xv = Xv[:0]
@@ -157,6 +157,16 @@ def run(ck):
             else:
                 if set(used) != set(range(n)):
                     probs.append('with overlap: some sample is in no leaf')
+            # the caller's validation points are ROUTED: at every split each of them goes to exactly one child
+            from collections import Counter
+            for nd in xr.walk(root):
+                if nd['kind'] != 'leaf' and len(nd['children']) == 2:
+                    par = Counter(nd['Xval'][j].numpy().tobytes() for j in range(nd['Xval'].shape[0]))
+                    ch = Counter()
+                    for cnode in nd['children']:
+                        ch.update(cnode['Xval'][j].numpy().tobytes() for j in range(cnode['Xval'].shape[0]))
+                    if par != ch:
+                        probs.append(f"validation points lost or duplicated at a split: node had {sum(par.values())}, children have {sum(ch.values())}")
             nsplit = sum(1 for nd in xr.walk(root) if nd['kind'] != 'leaf')
             ck.case(dict(desc, leaves=[(len(l['ids']), len(l['kept']), len(l['moved']), l['nval']) for l in leaves]),
                     nontrivial=(nsplit >= 1 and any_refill), sample=(nsplit >= 2 and any_refill))
